@@ -226,12 +226,12 @@ def make(kind, rng, x0, ints_only=False):
             return f + c2, val + c2
         if which == 2:
             return c2 - f, c2 - val
-        g = m['fn'].Function(lambda x, c2=c2: x + c2)
+        g = m['fn'].Function(lambda x, c2=c2: x + c2)   # same parameter name
         return f * g, val * (x0 + c2)
     if kind in ('routine', 'cstream'):
         vals = [n() for _ in range(rng.randint(1, 4))]
 
-        def gen(vals=vals):
+        def gen():            # no parameters: Routine would pass inval
             for v in vals:
                 yield v
         r = m['stm'].Routine(gen)
@@ -279,6 +279,9 @@ def make(kind, rng, x0, ints_only=False):
     raise ValueError(kind)
 
 
+CALL_BY_KEYWORD = [False]   # functions take their argument as f(x=x0)
+
+
 def evaluate(obj, x0, depth=0):
     """Normal form of a real (possibly composed) object."""
     m = mods()
@@ -290,6 +293,8 @@ def evaluate(obj, x0, depth=0):
         if isinstance(obj, m['opd'].Operand):
             return evaluate(obj.value, x0, depth + 1)
         if isinstance(obj, m['fn'].AbstractFunction):
+            if CALL_BY_KEYWORD[0]:
+                return evaluate(obj(x=x0), x0, depth + 1)
             return evaluate(obj(x0), x0, depth + 1)
         if isinstance(obj, m['ptt'].Pattern):
             obj = m['stm'].stream(obj)
